@@ -6,18 +6,6 @@ From Coq Require Import List Bool.
 Import ListNotations.
 From BWPlanner Require Import Terms Rows Clause Store.
 
-(* ---- value equivalence: equal up to the zone in which an instant is written *)
-Definition cell_equiv (a b : cell) : bool :=
-  match a, b with
-  | CNull, CNull => true
-  | CStr x, CStr y => str_eqb x y
-  | CNode x, CNode y => node_eqb x y
-  | CPred x, CPred y => pred_key_eqb x y
-  | CLit x, CLit y => lit_eqb x y
-  | CTime x, CTime y => t_equal x y
-  | _, _ => false
-  end.
-
 (* ---- the part of a triple a binding denotes; None = the extraction does not apply to this triple *)
 Definition xspec (x : extractor) (t : triple) : option cell :=
   match x with
